@@ -2,6 +2,7 @@ import C4E.Drv.Minter
 import C4E.Drv.Distr
 import C4E.Drv.Vest
 import C4E.Drv.Sig
+import C4E.App
 open C4E
 
 structure World where
@@ -20,6 +21,22 @@ def stepLine (w : World) (line : String) : World × String :=
   | t :: _ =>
     if t.startsWith "#" then (w, ".")
     else if w.halted then (w, "halted")
+    else if t = "a.block" then
+      -- cfeminter's BeginBlocker followed by cfedistributor's: the composed model `C4E.App.beginBlock`
+      match toks with
+      | [_, ts] =>
+        match C4E.Proto.int? ts with
+        | none => (w, "bad-op")
+        | some tt =>
+          let s0 : C4E.App.St := { mst := w.minter.st, world := w.distr.world }
+          match C4E.App.beginBlock w.distr.env w.minter.params s0 { time := tt, subs := w.distr.params, faults := w.distr.faults } with
+          | .ok r =>
+            let (m', _) := C4E.Drv.Minter.step w.minter ["m.block", ts]
+            let d' : C4E.Drv.Distr.W := { w.distr with world := r.st.world, faults := [] }
+            ({ w with minter := m', distr := d' },
+              s!"ok amt={r.minted} mst={C4E.Drv.Minter.showSt r.st.mst} states=[{";".intercalate (r.st.world.states.map C4E.Drv.Distr.showState)}] main={C4E.Proto.showCoins (C4E.CoinList.nz (r.st.world.bank.balance w.distr.env.mainAddr))} burned={C4E.Proto.showCoins (C4E.CoinList.nz r.st.world.bank.burned)} bal={C4E.Drv.Distr.showBals d'}")
+          | _ => ({ w with halted := true }, "panic")
+      | _ => (w, "bad-op")
     else if t.startsWith "m." then
       let (m, out) := C4E.Drv.Minter.step w.minter toks
       ({ w with minter := m, halted := out = "panic" && t = "m.block" }, out)
